@@ -204,6 +204,17 @@ func pinnedCases() []pinned {
 		svc.BasePath = "api"
 		innerCase("C03", "C03/base_path_no_leading_slash.json", "both", "c01", "PinService.Do", s, "base_path_no_leading_slash")
 	}
+	{
+		s, _, _, _, svc := baseSchema("p0034")
+		svc.Headers = []*schema.Header{{Name: "X-Request-ID", Type: "string", Format: "uuid", Required: true}}
+		innerCase("C09", "C09/uuid_header_nonhex_accepted.json", "server", "c09", "PinService.Do", s, "uuid_header_nonhex")
+	}
+	{
+		s, _, _, m, svc := baseSchema("p0035")
+		svc.Headers = []*schema.Header{{Name: "X-Tenant-ID", Type: "string", Required: true}}
+		m.Headers = []*schema.Header{{Name: "X-Tenant-ID", Type: "string", Required: false}}
+		innerCase("C09", "C09/optional_override_still_required.json", "server", "c09", "PinService.Do", s, "header_override_drops_required")
+	}
 	// ---- C20 open ----
 	{
 		s, _, resp, _, _ := baseSchema("p0013")
